@@ -48,6 +48,36 @@ Added for the boolean masks and formula slices of cnvlib/fix.py (round 4, C04):
   (or the unique call of a named method, e.g. `clip`), read with every other local as a free parameter, except locals bound
   exactly once in the function to a numeric literal (inlined) and the names listed in `inline` (earlier slices).  A slice says
   which FORMULA the function evaluates at that statement; it says nothing about the control flow around it.
+
+ROW-WISE reading of table functions (class `RowFn`, added for C20; Generated/ExprsExport.lean)
+* a function over a table (`segments`, `dframe`) whose statements are column-wise pandas / numpy expressions is read
+  ROW-wise: as a function from the cells of ONE row (typed parameters: `Int`, `Rat`, `String`, `Bool`; the column
+  types and the fixed parameter list are declared by the extractor, a column / option outside that list is
+  Untranslatable) to `Option (List Py.Val)` -- the cells of the row it contributes to the result, `none` when the
+  row contributes nothing.  Operations that relate different rows (shifts, `np.r_`, cumulative sums, sorting,
+  reductions) are outside the subset;
+* `frame["k"] = e` defines / overwrites column k (a scalar is broadcast); `frame.loc[mask, "k"] = e` and
+  `x[mask] op= e` update where the mask holds; `frame = frame[mask]` keeps the row iff the mask holds;
+  `frame.reindex(columns=[..])` selects those columns (a column the table may lack is that column's parameter: its
+  value is meaningful only when the column exists); `.data`, `.values`, `.copy()` are the identity;
+  `col.replace(a, b)` is `if col = a then b else col`; `col.round().astype("int")` is `roundHE` (numpy rounds half to
+  even), `.round()` alone is not accepted;
+* `"k" in table` is the Boolean parameter `has_k` (or `False` for the columns the extractor declares absent, e.g. the
+  confidence-limit columns whose handling is outside the model);
+* a call into ANOTHER module (`call.absolute_expect(...)`, `cnarr.guess_xx(...)`: another property's subject) is a
+  typed parameter; its argument list must be, textually, the one the extractor declares;
+* the final `for row[, x] in zip(frame.itertuples(index=False), col)` loop is read for one row: `continue` = the row
+  contributes nothing, `yield (..)` = its cells; nothing may follow the `yield` or the loop;
+* `return frame` = the row's cells in column order; `return <value>` for the scalar helpers;
+* an `if` that is not resolved statically continues with the REST of the function in both branches (paths are
+  duplicated, never merged); a path on which Python could not go on (a local that no statement on the path has bound)
+  contributes `none` -- the theorems show such paths unreachable;
+* strings: f-strings are concatenations, an `Int` hole is `toString`, a float hole is `fmt_float x` with
+  `fmt_float : Rat -> String` a parameter (Python's float formatting is not modelled); `sep.join([..])` is
+  `sep.intercalate`; `s.lower()` is `String.toLower`; truthiness of a string is `!= ""`; `None` in string position
+  reads as `""` (both falsy: the functions read here only test truthiness); `x in [a, b]` is a disjunction;
+* `2.0 ** row.log2` is the parameter `log2_pow2` (ratio space); `str(row.k).isdigit()` is the Boolean parameter
+  `k_isdigit`; `logging.*` calls and docstrings are skipped.
 """
 from __future__ import annotations
 
@@ -617,3 +647,550 @@ def emit_fragments(repo, o, path, fname, cls, specs, rename=None, keep=()):
         o.lines.append(f"/-- {comment} -/\n" + text)
         o.info[lean] = {"params": list(t.params)}
     return fn
+# =================================================================================================================
+# ROW-wise reading of table functions (see the second half of the module docstring)
+
+import json as _json
+
+_LEAN_TY = {"I": "Int", "Q": "Rat", "S": "String", "B": "Bool"}
+_LEAN_KEYWORDS = {"end": "end_", "show": "show_", "from": "from_", "at": "at_", "open": "open_"}
+
+
+class Unbound(Untranslatable):
+    """a local that no statement on the current path has bound"""
+
+
+class V:
+    """a typed Lean term: ty in I (Int) Q (Rat) S (String) B (Prop) R (a float holding a rounded value)"""
+    def __init__(self, ty, code):
+        self.ty, self.code = ty, code
+
+
+class Frame:
+    def __init__(self, cols):
+        self.cols = dict(cols)     # name -> V, in column order
+
+    def with_col(self, k, v):
+        c = dict(self.cols)
+        c[k] = v
+        return Frame(c)
+
+
+class RowOf:
+    def __init__(self, frame):
+        self.frame = frame
+
+
+class PySeq:
+    def __init__(self, items):
+        self.items = list(items)
+
+
+class PyZip:
+    def __init__(self, parts):
+        self.parts = parts
+
+
+def _lstr(s):
+    out = _json.dumps(s, ensure_ascii=True)
+    if "\\u" in out or "\\b" in out or "\\f" in out:
+        raise Untranslatable("string literal outside printable ASCII")
+    return out
+
+
+class RowFn:
+    """spec keys: tables {param: {col: ty}}, scalars {param: ty}, absent {col,...}, opaque {callee text: (kind, ...)},
+    sig [(lean name, lean type)], result "row" | "bool" | "str", fragment (optional: name of the local whose
+    if-chain is the whole function)"""
+
+    def __init__(self, fn, spec):
+        self.fn, self.spec = fn, spec
+        self.sig = list(spec["sig"])
+        self.signames = {n for n, _ in self.sig}
+        self.locals = {t.id for n in ast.walk(fn) for t in ast.walk(n)
+                       if isinstance(t, ast.Name) and isinstance(t.ctx, ast.Store)}
+
+    # -- parameters ----------------------------------------------------------------------------------------------
+    def use(self, name, ty):
+        lean = _LEAN_KEYWORDS.get(name, name)
+        want = dict(self.sig).get(lean)
+        if want is None:
+            raise Untranslatable(f"`{name}` is not among the declared inputs of the function")
+        have = _LEAN_TY.get(ty, ty)
+        if want != have:
+            raise Untranslatable(f"`{name}` declared {want}, used as {have}")
+        return f"({lean} = true)" if ty == "B" else lean
+
+    def table(self, name):
+        # a declared column that is not an input of THIS function stays unusable (code None) until something reads it
+        have = dict(self.sig)
+        return Frame({c: (V(t, self.use(c, t)) if _LEAN_KEYWORDS.get(c, c) in have else V(t, None))
+                      for c, t in self.spec["tables"][name].items()})
+
+    def got(self, v, what):
+        if isinstance(v, V) and v.code is None:
+            raise Untranslatable(f"`{what}` is not among the declared inputs of the function")
+        return v
+
+    # -- coercions -----------------------------------------------------------------------------------------------
+    @staticmethod
+    def num2(a, b):
+        if a.ty == b.ty and a.ty in ("I", "Q"):
+            return a.ty, a.code, b.code
+        if {a.ty, b.ty} == {"I", "Q"}:
+            f = lambda v: v.code if v.ty == "Q" else f"(({v.code} : Int) : Rat)"
+            return "Q", f(a), f(b)
+        raise Untranslatable(f"arithmetic on {a.ty} and {b.ty}")
+
+    def truth(self, v):
+        if not isinstance(v, V):
+            raise Untranslatable("truthiness of a non-scalar")
+        if v.ty == "B":
+            return v.code
+        if v.ty == "S":
+            return f"({v.code} ≠ \"\")"
+        if v.ty == "I":
+            return f"({v.code} ≠ 0)"
+        raise Untranslatable(f"truthiness of {v.ty}")
+
+    def as_str(self, v):
+        if v.ty == "S":
+            return v.code
+        if v.ty == "I":
+            return f"(toString {v.code})"
+        if v.ty == "Q":
+            self.use("fmt_float", "Rat → String")
+            return f"(fmt_float {v.code})"
+        raise Untranslatable(f"string form of {v.ty}")
+
+    # -- expressions ---------------------------------------------------------------------------------------------
+    def col_name(self, e):
+        if isinstance(e, ast.Attribute):
+            return e.attr
+        if isinstance(e, ast.Name):
+            return e.id
+        if isinstance(e, ast.Subscript) and isinstance(e.slice, ast.Constant) and isinstance(e.slice.value, str):
+            return e.slice.value
+        raise Untranslatable("not a column: " + ast.unparse(e))
+
+    def ev(self, e, env):
+        sp = self.spec
+        if isinstance(e, ast.Constant):
+            v = e.value
+            if isinstance(v, bool):
+                return V("B", "True" if v else "False")
+            if v is None:
+                return V("S", '""')
+            if isinstance(v, int):
+                return V("I", f"({v} : Int)" if v >= 0 else f"(({v}) : Int)")
+            if isinstance(v, float):
+                return V("Q", _rat(v))
+            if isinstance(v, str):
+                return V("S", _lstr(v))
+            raise Untranslatable(f"constant {v!r}")
+        if isinstance(e, ast.Name):
+            if e.id in env:
+                return env[e.id]
+            if e.id in self.locals:
+                raise Unbound(e.id)
+            if e.id in sp.get("scalars", {}):
+                ty = sp["scalars"][e.id]
+                return V(ty, self.use(e.id, ty))
+            if e.id in sp.get("tables", {}):
+                return self.table(e.id)
+            raise Untranslatable(f"name `{e.id}`")
+        if isinstance(e, ast.Attribute):
+            dotted = ast.unparse(e)
+            if dotted in sp.get("scalars", {}):      # `args.sample_id`, `segments.sample_id`
+                ty = sp["scalars"][dotted]
+                return V(ty, self.use(dotted.replace(".", "_"), ty))
+            base = self.ev(e.value, env)
+            if isinstance(base, Frame):
+                if e.attr in ("data",):
+                    return base
+                if e.attr in base.cols:
+                    return self.got(base.cols[e.attr], e.attr)
+                raise Untranslatable(f"column `{e.attr}` not in the frame")
+            if isinstance(base, RowOf):
+                if e.attr in base.frame.cols:
+                    return self.got(base.frame.cols[e.attr], e.attr)
+                raise Untranslatable(f"row field `{e.attr}` not in the frame")
+            if isinstance(base, V) and e.attr == "values":
+                return base
+            raise Untranslatable("attribute " + dotted)
+        if isinstance(e, ast.Subscript):
+            base = self.ev(e.value, env)
+            if isinstance(base, Frame) and isinstance(e.slice, ast.Constant) and isinstance(e.slice.value, str):
+                if e.slice.value in base.cols:
+                    return self.got(base.cols[e.slice.value], e.slice.value)
+                raise Untranslatable(f"column `{e.slice.value}` not in the frame")
+            idx = self.ev(e.slice, env)
+            if isinstance(base, V) and isinstance(idx, V) and idx.ty == "B":
+                return base                                   # elementwise reading of `col[mask]`
+            if isinstance(base, Frame) and isinstance(idx, V) and idx.ty == "B":
+                return ("FILTER", base, idx.code)
+            raise Untranslatable("subscript " + ast.unparse(e))
+        if isinstance(e, ast.UnaryOp):
+            if isinstance(e.op, ast.Not):
+                return V("B", f"(¬ {self.truth(self.ev(e.operand, env))})")
+            x = self.ev(e.operand, env)
+            if isinstance(e.op, ast.USub) and isinstance(x, V) and x.ty in ("I", "Q"):
+                return V(x.ty, f"(-{x.code})")
+            if isinstance(e.op, ast.Invert) and isinstance(x, V) and x.ty == "B":
+                return V("B", f"(¬ {x.code})")
+            raise Untranslatable(ast.unparse(e))
+        if isinstance(e, ast.BoolOp):
+            conj = isinstance(e.op, ast.And)
+            parts = []
+            for v in e.values:          # Python evaluates left to right and stops at the deciding operand
+                c = self.truth(self.ev(v, env))
+                if c == ("False" if conj else "True"):
+                    parts = [c]
+                    break
+                if c != ("True" if conj else "False"):
+                    parts.append(c)
+            if not parts:
+                return V("B", "True" if conj else "False")
+            return V("B", parts[0] if len(parts) == 1 else "(" + (" ∧ " if conj else " ∨ ").join(parts) + ")")
+        if isinstance(e, ast.BinOp):
+            if isinstance(e.op, ast.Pow):
+                if isinstance(e.left, ast.Constant) and e.left.value == 2 and not isinstance(e.left.value, bool):
+                    x = self.ev(e.right, env)
+                    nm = self.col_name(e.right)
+                    if isinstance(x, V) and x.ty == "Q" and x.code == _LEAN_KEYWORDS.get(nm, nm):
+                        return V("Q", self.use(nm + "_pow2", "Q"))
+                raise Untranslatable("power " + ast.unparse(e))
+            a, b = self.ev(e.left, env), self.ev(e.right, env)
+            if not (isinstance(a, V) and isinstance(b, V)):
+                raise Untranslatable(ast.unparse(e))
+            if isinstance(e.op, (ast.BitAnd, ast.BitOr)) and a.ty == b.ty == "B":
+                return V("B", f"({a.code} {'∧' if isinstance(e.op, ast.BitAnd) else '∨'} {b.code})")
+            if isinstance(e.op, ast.Add) and a.ty == b.ty == "S":
+                return V("S", f"({a.code} ++ {b.code})")
+            sym = {ast.Add: "+", ast.Sub: "-", ast.Mult: "*"}.get(type(e.op))
+            if sym:
+                ty, x, y = self.num2(a, b)
+                return V(ty, f"({x} {sym} {y})")
+            raise Untranslatable(ast.unparse(e))
+        if isinstance(e, ast.Compare):
+            parts, left = [], e.left
+            for op, right in zip(e.ops, e.comparators):
+                parts.append(self.compare(left, op, right, env))
+                left = right
+            return V("B", parts[0] if len(parts) == 1 else "(" + " ∧ ".join(parts) + ")")
+        if isinstance(e, ast.IfExp):
+            c = self.truth(self.ev(e.test, env))
+            a, b = self.ev(e.body, env), self.ev(e.orelse, env)
+            if not (isinstance(a, V) and isinstance(b, V)):
+                raise Untranslatable(ast.unparse(e))
+            if c == "True":
+                return a
+            if c == "False":
+                return b
+            if a.ty == b.ty:
+                return V(a.ty, f"(if {c} then {a.code} else {b.code})")
+            ty, x, y = self.num2(a, b)
+            return V(ty, f"(if {c} then {x} else {y})")
+        if isinstance(e, ast.JoinedStr):
+            parts = []
+            for p in e.values:
+                if isinstance(p, ast.Constant):
+                    parts.append(_lstr(p.value))
+                elif isinstance(p, ast.FormattedValue) and p.conversion == -1 and p.format_spec is None:
+                    parts.append(self.as_str(self.ev(p.value, env)))
+                else:
+                    raise Untranslatable("f-string piece " + ast.unparse(p))
+            return V("S", "(" + " ++ ".join(parts) + ")" if parts else '""')
+        if isinstance(e, (ast.List, ast.Tuple)):
+            return PySeq(self.ev(x, env) for x in e.elts)
+        if isinstance(e, ast.Call):
+            return self.call(e, env)
+        raise Untranslatable(ast.unparse(e))
+
+    def compare(self, left, op, right, env):
+        if isinstance(op, (ast.In, ast.NotIn)):
+            if isinstance(left, ast.Constant) and isinstance(left.value, str):
+                tab = self.ev(right, env)
+                if not isinstance(tab, Frame) or not isinstance(op, ast.In):
+                    raise Untranslatable("membership " + ast.unparse(right))
+                if left.value in self.spec.get("absent", ()):
+                    return "False"
+                return self.use("has_" + left.value, "B")
+            x, seq = self.ev(left, env), self.ev(right, env)
+            if isinstance(x, V) and isinstance(seq, PySeq) and seq.items and all(
+                    isinstance(i, V) and i.ty == x.ty for i in seq.items):
+                c = "(" + " ∨ ".join(f"{x.code} = {i.code}" for i in seq.items) + ")"
+                return c if isinstance(op, ast.In) else f"(¬ {c})"
+            raise Untranslatable("membership test")
+        a, b = self.ev(left, env), self.ev(right, env)
+        if not (isinstance(a, V) and isinstance(b, V)):
+            raise Untranslatable("comparison of non-scalars")
+        sym = {ast.Lt: "<", ast.LtE: "≤", ast.Gt: ">", ast.GtE: "≥", ast.Eq: "=", ast.NotEq: "≠"}.get(type(op))
+        if sym is None:
+            raise Untranslatable("comparison operator")
+        if a.ty == b.ty == "B" and sym in ("=", "≠"):
+            return f"({a.code} ↔ {b.code})" if sym == "=" else f"(¬ ({a.code} ↔ {b.code}))"
+        if a.ty == b.ty == "S" and sym in ("=", "≠"):
+            return f"({a.code} {sym} {b.code})"
+        _ty, x, y = self.num2(a, b)
+        return f"({x} {sym} {y})"
+
+    def opaque(self, key, e, env):
+        kind, *rest = self.spec["opaque"][key]
+        want = rest[-1]
+        got = [ast.unparse(a) for a in e.args] + [f"{k.arg}={ast.unparse(k.value)}" for k in e.keywords]
+        if got != want:
+            raise Untranslatable(f"{key} is called with ({', '.join(got)}), not ({', '.join(want)})")
+        if kind == "col":
+            ty, name = rest[0], rest[1]
+            return V(ty, self.use(name, ty))
+        if kind == "frame":
+            return Frame({c: V(t, self.use(n, t)) for c, (t, n) in rest[0].items()})
+        raise Untranslatable(key)
+
+    def call(self, e, env):
+        f = e.func
+        text = ast.unparse(f)
+        if text in self.spec.get("opaque", {}):
+            return self.opaque(text, e, env)
+        if isinstance(f, ast.Attribute) and ("." + f.attr) in self.spec.get("opaque", {}):
+            return self.opaque("." + f.attr, e, env)
+        if isinstance(f, ast.Name):
+            if f.id == "zip" and not e.keywords:
+                return PyZip([self.ev(a, env) for a in e.args])
+            if f.id == "str" and len(e.args) == 1 and not e.keywords:
+                return V("S", self.as_str(self.ev(e.args[0], env)))
+            raise Untranslatable("call " + text)
+        if not isinstance(f, ast.Attribute):
+            raise Untranslatable("call " + text)
+        # `str(row.k).isdigit()`
+        if f.attr == "isdigit" and not e.args and isinstance(f.value, ast.Call) and isinstance(f.value.func, ast.Name) \
+                and f.value.func.id == "str" and len(f.value.args) == 1:
+            self.ev(f.value.args[0], env)
+            return V("B", self.use(self.col_name(f.value.args[0]) + "_isdigit", "B"))
+        # `sep.join([...])`
+        if f.attr == "join" and isinstance(f.value, ast.Constant) and isinstance(f.value.value, str) and len(e.args) == 1:
+            seq = self.ev(e.args[0], env)
+            if isinstance(seq, PySeq) and all(isinstance(i, V) and i.ty == "S" for i in seq.items):
+                return V("S", f"({_lstr(f.value.value)}.intercalate [{', '.join(i.code for i in seq.items)}])")
+            raise Untranslatable("join of " + ast.unparse(e.args[0]))
+        base = self.ev(f.value, env)
+        kws = {k.arg: k.value for k in e.keywords}
+        if isinstance(base, Frame):
+            if f.attr == "reindex" and not e.args and set(kws) == {"columns"}:
+                names = ast.literal_eval(kws["columns"])
+                missing = [n for n in names if n not in base.cols]
+                if missing:
+                    raise Untranslatable(f"reindex to columns {missing} the table is not declared to have")
+                return Frame({n: base.cols[n] for n in names})
+            if f.attr == "itertuples" and not e.args and set(kws) <= {"index"} and \
+                    isinstance(kws.get("index"), ast.Constant) and kws["index"].value is False:
+                return RowOf(base)
+            if f.attr == "copy" and not e.args:
+                return base
+            raise Untranslatable("frame method " + f.attr)
+        if isinstance(base, V):
+            if f.attr == "replace" and len(e.args) == 2 and not kws:
+                a, b = self.ev(e.args[0], env), self.ev(e.args[1], env)
+                if isinstance(a, V) and isinstance(b, V) and a.ty == b.ty == base.ty and base.ty in ("I", "S"):
+                    return V(base.ty, f"(if {base.code} = {a.code} then {b.code} else {base.code})")
+            if f.attr == "round" and not e.args and not kws and base.ty == "Q":
+                return V("R", f"(roundHE {base.code})")
+            if f.attr == "astype" and len(e.args) == 1 and not kws and isinstance(e.args[0], ast.Constant) \
+                    and e.args[0].value in ("int", "int64"):
+                if base.ty == "R":
+                    return V("I", base.code)
+                if base.ty == "I":
+                    return base
+            if f.attr == "lower" and not e.args and base.ty == "S":
+                return V("S", f"({base.code}).toLower")
+            if f.attr == "copy" and not e.args:
+                return base
+        raise Untranslatable("call " + ast.unparse(e)[:80])
+
+    # -- statements ----------------------------------------------------------------------------------------------
+    def named(self, hint, val):
+        """(value to keep in the environment, `let` prefix or ""): a computed Int / Rat / String value is bound once
+        under the name the source gives it, so that the generated term can be read against the source"""
+        import re
+        if not isinstance(val, V) or val.ty not in ("I", "Q", "S") or val.code is None \
+                or re.fullmatch(r"[A-Za-z_][A-Za-z0-9_']*|\"[^\"]*\"|\(\(?-?\d+\)? : (Int|Rat)\)", val.code):
+            return val, ""
+        self.nlets = getattr(self, "nlets", {})
+        k = self.nlets.get(hint, 0) + 1
+        self.nlets[hint] = k
+        nm = hint if k == 1 and hint not in self.signames else f"{hint}_{k}"
+        return V(val.ty, nm), f"let {nm} : {_LEAN_TY[val.ty]} := {val.code}\n  "
+
+    def cells(self, vals):
+        out = []
+        for v in vals:
+            if not isinstance(v, V) or v.ty not in ("I", "Q", "S") or v.code is None:
+                raise Untranslatable("cell of type " + getattr(v, "ty", type(v).__name__))
+            out.append({"I": ".int ", "Q": ".num ", "S": ".str "}[v.ty] + v.code)
+        return "(some [" + ", ".join(out) + "])"
+
+    def result(self, v):
+        kind = self.spec.get("result", "row")
+        if kind == "row":
+            if isinstance(v, Frame):
+                return self.cells(v.cols.values())
+            if isinstance(v, PySeq):
+                return self.cells(v.items)
+            raise Untranslatable("row result expected")
+        if kind == "bool" and isinstance(v, V) and v.ty == "B":
+            return f"(decide {v.code})"
+        if kind == "str" and isinstance(v, V) and v.ty == "S":
+            return v.code
+        raise Untranslatable(f"result of kind {kind}")
+
+    def none(self):
+        if self.spec.get("result", "row") != "row":
+            raise Untranslatable("a path without a value in a scalar function")
+        return "none"
+
+    def run(self, stmts, env, loop=False, frag=None):
+        if not stmts:
+            if loop:
+                return self.none()
+            if frag is not None:
+                if frag not in env:
+                    raise Unbound(frag)
+                return self.result(env[frag])
+            raise Untranslatable("function falls off its end without a result")
+        s, rest = stmts[0], list(stmts[1:])
+        go = lambda st, en: self.run(st, en, loop, frag)
+        if isinstance(s, ast.Expr):
+            v = s.value
+            if isinstance(v, ast.Constant):
+                return go(rest, env)                         # docstring
+            if isinstance(v, ast.Call) and ast.unparse(v.func).startswith("logging."):
+                return go(rest, env)
+            if isinstance(v, ast.Yield) and loop:
+                if rest:
+                    raise Untranslatable("statements after the yield")
+                return self.result(self.ev(v.value, env))
+            raise Untranslatable("expression statement " + ast.unparse(s)[:60])
+        if isinstance(s, ast.Assert):
+            return go(rest, env)
+        if isinstance(s, ast.Continue) and loop:
+            return self.none()
+        if isinstance(s, ast.Return) and not loop and s.value is not None:
+            return self.result(self.ev(s.value, env))
+        if isinstance(s, ast.Assign) and len(s.targets) == 1:
+            t = s.targets[0]
+            val = self.ev(s.value, env)
+            env = dict(env)
+            if isinstance(t, ast.Name):
+                if isinstance(val, tuple) and val[0] == "FILTER":
+                    env[t.id] = val[1]
+                    return f"(if {val[2]} then {go(rest, env)} else {self.none()})"
+                env[t.id], let = self.named(t.id, val)
+                return let + go(rest, env) if not let else f"({let}{go(rest, env)})"
+            if isinstance(t, ast.Subscript) and isinstance(t.value, ast.Name) and isinstance(env.get(t.value.id), Frame) \
+                    and isinstance(val, V):
+                fr = env[t.value.id]
+                if isinstance(t.slice, ast.Constant) and isinstance(t.slice.value, str):
+                    val, let = self.named(t.slice.value, val)
+                    env[t.value.id] = fr.with_col(t.slice.value, val)
+                    return go(rest, env) if not let else f"({let}{go(rest, env)})"
+            if isinstance(t, ast.Subscript) and isinstance(t.value, ast.Attribute) and t.value.attr == "loc" \
+                    and isinstance(t.value.value, ast.Name) and isinstance(env.get(t.value.value.id), Frame) \
+                    and isinstance(t.slice, ast.Tuple) and len(t.slice.elts) == 2 and isinstance(val, V):
+                fr = env[t.value.value.id]
+                mask = self.ev(t.slice.elts[0], env)
+                k = t.slice.elts[1]
+                if isinstance(mask, V) and mask.ty == "B" and isinstance(k, ast.Constant) and k.value in fr.cols \
+                        and fr.cols[k.value].ty == val.ty:
+                    old = fr.cols[k.value]
+                    new, let = self.named(k.value, V(val.ty, f"(if {mask.code} then {val.code} else {old.code})"))
+                    env[t.value.value.id] = fr.with_col(k.value, new)
+                    return go(rest, env) if not let else f"({let}{go(rest, env)})"
+            raise Untranslatable("assignment " + ast.unparse(s)[:80])
+        if isinstance(s, ast.AugAssign):
+            sym = {ast.Add: "+", ast.Sub: "-", ast.Mult: "*"}.get(type(s.op))
+            val = self.ev(s.value, env)
+            t = s.target
+            env = dict(env)
+            if sym and isinstance(val, V) and isinstance(t, ast.Name) and isinstance(env.get(t.id), V):
+                ty, x, y = self.num2(env[t.id], val)
+                env[t.id] = V(ty, f"({x} {sym} {y})")
+                return go(rest, env)
+            if sym and isinstance(val, V) and isinstance(t, ast.Subscript) and isinstance(t.value, ast.Name) \
+                    and isinstance(env.get(t.value.id), V):
+                mask = self.ev(t.slice, env)
+                if isinstance(mask, V) and mask.ty == "B":
+                    cur = env[t.value.id]
+                    ty, x, y = self.num2(cur, val)
+                    if ty != cur.ty:
+                        raise Untranslatable("masked update changes the column type")
+                    env[t.value.id], let = self.named(t.value.id, V(ty, f"(if {mask.code} then ({x} {sym} {y}) else {cur.code})"))
+                    return go(rest, env) if not let else f"({let}{go(rest, env)})"
+            raise Untranslatable(ast.unparse(s)[:80])
+        if isinstance(s, ast.If):
+            c = self.truth(self.ev(s.test, env))
+            if c == "True":
+                return go(list(s.body) + rest, env)
+            if c == "False":
+                return go(list(s.orelse) + rest, env)
+            branches, unbound = [], None
+            for body in (s.body, s.orelse):
+                try:
+                    branches.append(go(list(body) + rest, dict(env)))
+                except Unbound as u:
+                    unbound = u
+                    branches.append(None)
+            if branches[0] is None and branches[1] is None:
+                raise unbound
+            th, el = (b if b is not None else self.none() for b in branches)
+            return f"(if {c} then {th} else {el})"
+        if isinstance(s, ast.For) and not loop and not s.orelse:
+            if rest:
+                raise Untranslatable("statements after the row loop")
+            it = self.ev(s.iter, env)
+            env = dict(env)
+            if isinstance(it, RowOf) and isinstance(s.target, ast.Name):
+                env[s.target.id] = it
+            elif isinstance(it, PyZip) and isinstance(s.target, ast.Tuple) and len(s.target.elts) == len(it.parts) \
+                    and all(isinstance(x, ast.Name) for x in s.target.elts) \
+                    and all(isinstance(p, (RowOf, V)) for p in it.parts):
+                for x, p in zip(s.target.elts, it.parts):
+                    env[x.id] = p
+            else:
+                raise Untranslatable("loop over " + ast.unparse(s.iter)[:60])
+            return self.run(list(s.body), env, True, frag)
+        raise Untranslatable(type(s).__name__ + ": " + ast.unparse(s)[:80])
+
+    def translate(self, lean_name, comment=None):
+        frag = self.spec.get("fragment")
+        body = list(self.fn.body)
+        if frag:
+            # the function is too large for the subset: only the if-chain that binds `frag` is read
+            chains = [n for n in ast.walk(self.fn) if isinstance(n, ast.If) and any(
+                isinstance(t, ast.Name) and t.id == frag for a in ast.walk(n) if isinstance(a, ast.Assign) for t in a.targets)]
+            tops = [n for n in chains if not any(n is not m and n in ast.walk(m) for m in chains)]
+            if len(tops) != 1:
+                raise Untranslatable(f"{len(tops)} if-chains bind `{frag}`")
+            body = [tops[0]]
+            self.locals = {frag}
+        code = self.run(body, {}, False, frag)
+        rty = {"row": "Option (List CnvVerif.Py.Val)", "bool": "Bool", "str": "String"}[self.spec.get("result", "row")]
+        ps = " ".join(f"({n} : {t})" for n, t in self.sig)
+        doc = f"/-- {comment} -/\n" if comment else ""
+        return doc + f"def {lean_name} {ps} : {rty} :=\n  {code}"
+
+
+def emit_rows(repo, o, specs):
+    """translate each (file, function, lean name, RowFn spec, comment) row-wise; outside the subset -> a comment"""
+    import os
+    from .translate import parse, find_func
+    for path, fname, lean, spec, comment in specs:
+        try:
+            tree, _src = parse(os.path.join(repo, path))
+            text = RowFn(find_func(tree, fname), spec).translate(lean, comment)
+        except (Untranslatable, KeyError, OSError, SyntaxError, ValueError) as e:
+            o.lines.append(f"-- NOT TRANSLATED: {path}:{fname}: {type(e).__name__}: {str(e)[:200]}".replace("\n", " "))
+            o.info[lean] = {"error": str(e)[:200]}
+            continue
+        o.lines.append(text)
+        o.info[lean] = {"params": [n for n, _ in spec["sig"]]}
